@@ -11,7 +11,7 @@
    its duplicates, is the CID of some block).
    The model is the code as repaired by notes/fixes/C13-*.patch (see Inspect.v, "FIX"). *)
 From GoCar Require Import Bytes Varint Cid Header Frame V2Header Scan CliCmds Inspect.
-From GoCarProofs Require Import InspectFacts InspectC13 InspectQuick InspectCli InspectHistory.
+From GoCarProofs Require Import CidFacts ScanFacts ScanSound ScanTrunc InspectFacts InspectC13 InspectQuick InspectCli InspectHistory InspectFull.
 
 (* For every hash oracle, header decoder, option set (ZeroLengthSectionAsEOF, header limit,
    section limit up to go-cid's 32 MiB stream-parser cap) and EVERY byte string NewReader
@@ -129,3 +129,64 @@ Theorem C13_reader_calls_do_not_depend_on_history :
     = map (fun op => fst (rstep hok hdrdec o file (fresh_reader rd) op)) ops.
 Proof. exact inspect_after_history. Qed.
 Print Assumptions C13_reader_calls_do_not_depend_on_history.
+
+(* ---- extension round: what full validation adds ------------------------------------------------ *)
+(* Inspect(true) = Inspect(false) + every block's hash verified.  For every byte string NewReader
+   accepts (section limit within 32 MiB): Inspect(true) = Ok st iff Inspect(false) = Ok st AND the
+   non-verifying (TrustedCAR) BlockReader scan of the same bytes ends cleanly with blocks that are all
+   intact in C02's sense (the CID parses at the front of the section and the data hashes to it under
+   the CID's own hash function, per the hash oracle). *)
+Theorem C13_full_validation_is_quick_inspection_plus_every_hash :
+  forall hok hdrdec o file rd,
+    o_maxs o <= max_digest_alloc ->
+    new_reader hdrdec o file = Ok rd ->
+    forall st,
+      inspect hok hdrdec o rd file true = Ok st <->
+      (inspect hok hdrdec o rd file false = Ok st /\
+       exists roots blocks,
+         br_read_all hok hdrdec (mkropts (o_zeof o) (o_maxh o) (o_maxs o) true) file
+         = Ok (r_version rd, roots, mkscan blocks EEof) /\
+         Forall (intact hok) blocks).
+Proof. exact c13_full_is_quick_plus_hashes. Qed.
+Print Assumptions C13_full_validation_is_quick_inspection_plus_every_hash.
+
+(* A single corrupted payload byte is reported.  Take a valid archive, replace ONE byte x of some
+   block's data by x' <> x (everything else, lengths included, untouched; [rest] is whatever follows).
+   If the hash oracle does not collide on same-length data, Inspect(true) fails, and not with io.EOF. *)
+Theorem C13_full_validation_reports_a_corrupted_data_byte :
+  forall hok hdrdec o roots pre c d1 x x' d2 rest,
+    o_maxs o <= max_digest_alloc ->
+    hdr_good hdrdec roots -> blen (enc_header (Some roots) 1) <= o_maxh o ->
+    blen (enc_header (Some roots) 1) < two63 ->
+    Forall (block_ok (o_maxs o)) pre -> Forall (hash_good hok) pre ->
+    block_ok (o_maxs o) (c, d1 ++ x :: d2) -> hash_good hok (c, d1 ++ x :: d2) ->
+    (forall c d d', hok c d = Some true -> d' <> d -> blen d' = blen d -> hok c d' = Some false) ->
+    x' <> x ->
+    exists e, e <> EEof /\
+      inspect_file hok hdrdec o
+        (ld (enc_header (Some roots) 1) ++ enc_sections pre ++ enc_section c (d1 ++ x' :: d2) ++ rest) true
+      = Err e.
+Proof. exact inspect_reports_a_flipped_data_byte. Qed.
+Print Assumptions C13_full_validation_reports_a_corrupted_data_byte.
+
+(* ... and so is a corrupted byte of the digest inside the block's CID, if the oracle binds digests
+   (a CID that differs from a matching one only in its digest does not match the same data). *)
+Theorem C13_full_validation_reports_a_corrupted_digest_byte :
+  forall hok hdrdec o roots pre p g1 x x' g2 d rest,
+    o_maxs o <= max_digest_alloc ->
+    hdr_good hdrdec roots -> blen (enc_header (Some roots) 1) <= o_maxh o ->
+    blen (enc_header (Some roots) 1) < two63 ->
+    Forall (block_ok (o_maxs o)) pre -> Forall (hash_good hok) pre ->
+    c_digest p = g1 ++ x :: g2 -> cid_ok p ->
+    block_ok (o_maxs o) (cid_enc p, d) -> hash_good hok (cid_enc p, d) ->
+    (forall q g' dd, cid_ok q -> hok (cid_enc q) dd = Some true -> g' <> c_digest q ->
+                     blen g' = blen (c_digest q) ->
+                     hok (cid_enc (mkcid (c_ver q) (c_codec q) (c_mhcode q) g')) dd = Some false) ->
+    x' <> x ->
+    let p' := mkcid (c_ver p) (c_codec p) (c_mhcode p) (g1 ++ x' :: g2) in
+    exists e, e <> EEof /\
+      inspect_file hok hdrdec o
+        (ld (enc_header (Some roots) 1) ++ enc_sections pre ++ enc_section (cid_enc p') d ++ rest) true
+      = Err e.
+Proof. exact inspect_reports_a_flipped_digest_byte. Qed.
+Print Assumptions C13_full_validation_reports_a_corrupted_digest_byte.
